@@ -1171,17 +1171,16 @@ class WorkflowConductor(object):
                     staged_next_task["run_on_fail"] = True
 
         # Process the task event using the workflow state machine and update the workflow status.
-        old_workflow_status = self.get_workflow_status()
         task_ex_event = events.TaskExecutionEvent(task_id, route, task_state_entry["status"])
         machines.WorkflowStateMachine.process_event(self.workflow_state, task_ex_event)
 
         # If the task event pauses or cancels the workflow, i.e. the task is pending or canceled,
         # then notify the other active tasks the same way as when it is requested. Otherwise, a
         # with items task which still has items to run is left running with no item in progress.
-        if self.get_workflow_status() != old_workflow_status and self.get_workflow_status() in [
-            statuses.PAUSING,
-            statuses.CANCELING,
-        ]:
+        # The same applies to a task event that is processed while the workflow is pausing or
+        # canceling, i.e. the first status of a task that was returned by get_next_tasks before
+        # the workflow is requested to pause or cancel is reported after the request.
+        if self.get_workflow_status() in [statuses.PAUSING, statuses.CANCELING]:
             self.request_workflow_status(self.get_workflow_status())
 
         # Process any engine commands in the queue.
